@@ -44,6 +44,14 @@ def nm(s, ctx=None):
         return 'ESC:' + type(e).__name__
 
 
+def pushname(text, ctx):
+    from formulas.ranges import Ranges
+    try:
+        return Ranges().push(text, context=ctx).ranges[0]['name']
+    except Exception as e:
+        return 'ESC:' + type(e).__name__
+
+
 def spellings(c1, r1, c2, r2):
     C1, C2 = R.col(c1), R.col(c2)
     out = {}
@@ -116,6 +124,12 @@ def run_rect(case):
             for k, v in rel_spellings(c1, r1, c2, r2, (hr, hc)).items():
                 names['%s@%d,%d' % (k, hr, hc)] = nm(v, ctx)
                 sp['%s@%d,%d' % (k, hr, hc)] = v
+        # the same spellings through the other public entry point (Ranges.push): same id from every host, in any order
+        for k in list(names):
+            host = k.split('@')[1] if '@' in k else None
+            cx = dict(ctx0, cr=host.split(',')[0], cc=int(host.split(',')[1])) if host else ctx0
+            names['push:' + k] = pushname(sp[k], cx)
+            sp['push:' + k] = sp[k]
         n += len(names)
         ref = names['A1:B2']
         for k, v in names.items():
@@ -271,6 +285,37 @@ def run_books(case):
     return result(n, ['books'], fails)
 
 
+def run_relhost(case):
+    """the same relative text from many host cells, interleaved: each must denote host + offset (both entry points)."""
+    _, sheet = case
+    hosts = [(1, 1), (5, 3), (10, 5), (100, 27), (7, 7), (1048570, 16380), (3, 703)]
+    offs = [-2, -1, 1, 2, 3]
+    fails, n = [], 0
+    for rounds in range(2):                      # twice: a memo filled by one host must not answer for another
+        for dr in offs:
+            for dc in offs:
+                for (hr, hc) in (hosts if rounds == 0 else hosts[::-1]):
+                    r, c = hr + dr, hc + dc
+                    if not (1 <= r <= MAXR and 1 <= c <= MAXC):
+                        continue
+                    ctx = {'sheet': sheet, 'cr': str(hr), 'cc': hc}
+                    want = '%s!%s%d' % (sheet.upper(), R.col(c), r)
+                    for text in ('R[%d]C[%d]' % (dr, dc), 'r[%+d]c[%+d]' % (dr, dc)):
+                        for label, got in (('Range', nm(text, ctx)), ('push', pushname(text, ctx))):
+                            n += 1
+                            if got != want:
+                                fails.append(Fail('relative-host', got=got, exp=want, text=text, host='R%dC%d' % (hr, hc), spelling=label, feat='round%d' % rounds))
+                    r2, c2 = r + 1, c + 2
+                    if r2 <= MAXR and c2 <= MAXC and dr + 1 != 0 and dc + 2 != 0:      # a zero offset is not in the alphabet (DESIGN C04 Excluded)
+                        text = 'R[%d]C[%d]:R[%d]C[%d]' % (dr, dc, dr + 1, dc + 2)
+                        want2 = '%s!%s%d:%s%d' % (sheet.upper(), R.col(c), r, R.col(c2), r2)
+                        for label, got in (('Range', nm(text, ctx)), ('push', pushname(text, ctx))):
+                            n += 1
+                            if got != want2:
+                                fails.append(Fail('relative-host', got=got, exp=want2, text=text, host='R%dC%d' % (hr, hc), spelling=label, feat='round%d' % rounds))
+    return result(n, ['relhost'], fails[:40])
+
+
 def run_defined(case):
     _, name = case
     fails = []
@@ -322,7 +367,7 @@ def run_fast(case):
 
 
 def run_case(case):
-    return {'rect': run_rect, 'cols': run_cols, 'names': run_names, 'defined': run_defined, 'fast': run_fast, 'books': run_books}[case[0]](case)
+    return {'rect': run_rect, 'cols': run_cols, 'names': run_names, 'defined': run_defined, 'fast': run_fast, 'books': run_books, 'relhost': run_relhost}[case[0]](case)
 
 
 def run(ctx):
@@ -348,4 +393,5 @@ def run(ctx):
     ctx.explore(run_case, (['defined', nme] for nme in ['rate', 'Rate', 'RATE', 'my_name', 'My.Name', 'x_1', 'näme', 'TaxRate2024x']), chunksize=1, label='defined_names')
     ctx.explore(run_case, (['fast', ctx.tier, c] for c in cols), chunksize=1, label='fast_paths')
     ctx.explore(run_case, (['books', sh] for sh in ['S', 'My Data', "It's", '1st']), chunksize=1, label='workbook_names')
+    ctx.explore(run_case, (['relhost', sh] for sh in ['S', 'T']), chunksize=1, label='relative_text_from_many_hosts')
     return {'distinct_ids': len(allids)}
